@@ -7,7 +7,7 @@ def run(ctx):
     if ctx.replay:
         ctx.run_shards(b, "TestVerifC01", 1, 600, "c01")
     else:
-        ctx.run_shards(b, "TestVerifC01", 25, 900 if ctx.tier == "quick" else 3400, "c01", parallel=16)
+        ctx.run_shards(b, "TestVerifC01", 26, 900 if ctx.tier == "quick" else 3400, "c01", parallel=16)
         # the same per-carrier case lists with the traffic dump switched on (PipeData takes another copy path then)
         ctx.run_shards(b, "TestVerifC01", 4, 900, "c01dump", extra_env={"SOCKETACE_PIPE_DEBUG": "1", "VERIF_CARRIERS": "tcp,ws", "VERIF_TIER": "quick"})
         # the carriers with queues of their own (DNS tunnel, KCP) once more under the race detector
@@ -22,5 +22,5 @@ def run(ctx):
         "write sizes {1,7,4095,4096,4097,32640,32768,32769,65536,100003,whole,random partition}; oracle: online comparison at both observation points, "
         "conservation and end-of-stream exactly at the written length; stall rule instead of timeouts. Quick = Latin-square sample per carrier, "
         "plus, on dns, dns+starttls, udp and ws, one connection on which writes of 1, 2, 3, ... 420 (thorough 1300) bytes are each delivered before the next is written, once per direction (every frame / fragment / name length occurs); "
-        "6000 (thorough 40000) short connections per direction on tcp and ws, 8 at a time: 700 bytes and close at once, the reader must get all of them; carriers that live longer than every periodic timer of the stack (35 s, thorough 70 s) while saturated in both directions (ws, udp) or back-pressured (tcp, ws, wss: the target stands still for the whole period while the application keeps writing and the other direction flows), everything compared online and complete at the end; the tcp and ws case lists once more with SOCKETACE_PIPE_DEBUG=1 (the traffic-dump copy path of PipeData); the dns and udp case lists once more under the race detector (these carriers keep queues of their own between the multiplexer's goroutines and the packet handlers); thorough = full length x write-size product on stream carriers. Distinct = (carrier, listener, lengths, write sizes, content); non-trivial = the comparison ran to a verdict.",
-        ["loopback sockets and in-process pipes stand for the network", "DNS and KCP payloads are limited in size (70 KiB / 128 KiB quick)"])
+        "6000 (thorough 40000) short connections per direction on tcp and ws, 8 at a time: 700 bytes and close at once, the reader must get all of them; on dns one session whose packet counter goes past 65535 (one connection uploads 14 MiB, a second one then moves 64 KiB each way); carriers that live longer than every periodic timer of the stack (35 s, thorough 70 s) while saturated in both directions (ws, udp) or back-pressured (tcp, ws, wss: the target stands still for the whole period while the application keeps writing and the other direction flows), everything compared online and complete at the end; the tcp and ws case lists once more with SOCKETACE_PIPE_DEBUG=1 (the traffic-dump copy path of PipeData); the dns and udp case lists once more under the race detector (these carriers keep queues of their own between the multiplexer's goroutines and the packet handlers); thorough = full length x write-size product on stream carriers. Distinct = (carrier, listener, lengths, write sizes, content); non-trivial = the comparison ran to a verdict.",
+        ["loopback sockets and in-process pipes stand for the network", "DNS and KCP payloads are limited in size (70 KiB / 128 KiB quick) apart from the one 14 MiB upload of the aged-session scenario"])
